@@ -46,7 +46,129 @@ func Watchdog(d time.Duration, needles []string, f func() error) (err error, hun
 			}
 		}
 	}
+	// no needle matched.  Second opinion: a standstill of all library code.
+	time.Sleep(5 * time.Second)
+	select {
+	case e := <-done:
+		return e, "", false // it was merely slow
+	default:
+	}
+	n2 := runtime.Stack(buf[n:], true)
+	if g, ok := standstill(dump, string(buf[n:n+n2])); ok {
+		return nil, g, false
+	}
 	return nil, "", true
+}
+
+var libraryPkgs = []string{"github.com/akrennmair/updog.", "github.com/akrennmair/updog/internal/", "github.com/akrennmair/updog/driver.", "github.com/akrennmair/updog/cmd/", "go.etcd.io/bbolt", "github.com/RoaringBitmap/roaring"}
+
+var parkedStates = []string{"chan send", "chan receive", "select", "semacquire", "sync.Mutex.Lock", "sync.RWMutex.RLock", "sync.RWMutex.Lock", "sync.WaitGroup.Wait", "sync.Cond.Wait"}
+
+type gor struct {
+	id, state string
+	funcs     []string // function lines, innermost first
+	text      string
+}
+
+func parseDump(dump string) map[string]gor {
+	out := map[string]gor{}
+	for _, blk := range strings.Split(dump, "\n\n") {
+		lines := strings.Split(strings.TrimSpace(blk), "\n")
+		if len(lines) == 0 || !strings.HasPrefix(lines[0], "goroutine ") {
+			continue
+		}
+		head := lines[0]
+		i, j := strings.Index(head, "["), strings.LastIndex(head, "]")
+		if i < 0 || j < i {
+			continue
+		}
+		g := gor{id: strings.Fields(head)[1], state: head[i+1 : j], text: blk}
+		if k := strings.Index(g.state, ","); k >= 0 {
+			g.state = g.state[:k] // drop "N minutes"
+		}
+		for _, l := range lines[1:] {
+			if !strings.HasPrefix(l, "\t") && !strings.HasPrefix(l, "created by ") {
+				g.funcs = append(g.funcs, l)
+			}
+		}
+		out[g.id] = g
+	}
+	return out
+}
+
+func isLibrary(fn string) bool {
+	if strings.Contains(fn, "/verifharness/") {
+		return false
+	}
+	for _, p := range libraryPkgs {
+		if strings.HasPrefix(fn, p) {
+			return true
+		}
+	}
+	return false
+}
+
+// standstill decides, from two dumps taken seconds apart, whether the action
+// under the watchdog can never finish: the goroutine running it, and EVERY
+// other goroutine that executes library code (updog, bbolt, roaring), is
+// parked on a channel or lock operation issued by library code, with the same
+// stack in both dumps.  Only such a goroutine could wake another one (the
+// harness holds no library channel or lock, and none of these packages uses
+// timers), so nothing ever will.  A goroutine with library frames that is
+// running, in a system call, sleeping, or parked inside some other package
+// (grpc, net, database/sql) makes the verdict "not provable".
+func standstill(a, b string) (string, bool) {
+	ga, gb := parseDump(a), parseDump(b)
+	var action *gor
+	for id, g := range gb {
+		hasLib := false
+		for _, fn := range g.funcs {
+			if isLibrary(fn) {
+				hasLib = true
+				break
+			}
+		}
+		if !hasLib {
+			continue
+		}
+		parked := false
+		for _, st := range parkedStates {
+			if strings.HasPrefix(g.state, st) {
+				parked = true
+			}
+		}
+		if !parked {
+			return "", false
+		}
+		// who issued the blocking operation: first frame outside runtime/sync
+		issuer := ""
+		for _, fn := range g.funcs {
+			if strings.HasPrefix(fn, "runtime.") || strings.HasPrefix(fn, "sync.") || strings.HasPrefix(fn, "internal/") {
+				continue
+			}
+			issuer = fn
+			break
+		}
+		if !isLibrary(issuer) {
+			return "", false
+		}
+		prev, ok := ga[id]
+		if !ok || strings.Join(prev.funcs, "\n") != strings.Join(g.funcs, "\n") {
+			return "", false
+		}
+		if strings.Contains(g.text, "fix.Watchdog.func1") {
+			gg := g
+			action = &gg
+		}
+	}
+	if action == nil {
+		return "", false
+	}
+	txt := action.text
+	if len(txt) > 3000 {
+		txt = txt[:3000]
+	}
+	return "every goroutine executing library code is parked on a channel or lock of the library, unchanged over 5 s; nobody is left to wake it:\n" + txt, true
 }
 
 // WriteCSV writes a rectangular CSV (header = cols) with encoding/csv.
